@@ -1868,13 +1868,23 @@ class AstEval:
     async def ast_dict(self, arg):
         """Evaluate dict."""
         val = {}
+        # as in python, a run of key: value pairs is evaluated completely before its keys are inserted (hashed)
+        pairs = []
         for key_ast, val_ast in zip(arg.keys, arg.values):
             if key_ast is None:
-                val.update(await self.aeval(val_ast))
+                for this_key, this_val in pairs:
+                    val[this_key] = this_val
+                pairs = []
+                mapping = await self.aeval(val_ast)
+                if not hasattr(mapping, "keys"):
+                    raise TypeError(f"'{type(mapping).__name__}' object is not a mapping")
+                val.update(mapping)
             else:
                 # the key is evaluated before its value, as Python does
                 this_key = await self.aeval(key_ast)
-                val[this_key] = await self.aeval(val_ast)
+                pairs.append((this_key, await self.aeval(val_ast)))
+        for this_key, this_val in pairs:
+            val[this_key] = this_val
         return val
 
     async def dictcomp_loop(self, generators, key, value):
